@@ -712,7 +712,17 @@ class Frames:
             vals = [self.ev(a, env, f, record) for a in args]
             return vals[0] if cn in ("list", "tuple", "sorted") and vals else (FREE if cn in ("len", "int", "float") else None)
         callee = self.idx.resolve_call(f.module, node, env["self"].a if ("self" in env and env["self"] is not None and env["self"].kind == "self") else f.cls)
-        vals = [self.ev(a, env, f, record) for a in args]
+        vals = []
+        for a in args:
+            if isinstance(a, ast.Starred):
+                # helper(*pair_returning_call(...)): the elements of the tuple become the positional arguments
+                tv = self.ev(a.value, env, f, record)
+                if tv is not None and tv.kind == "tuple" and tv.elts:
+                    vals.extend(tv.elts)
+                else:
+                    vals.append(None)
+            else:
+                vals.append(self.ev(a, env, f, record))
         kw = {k.arg: self.ev(k.value, env, f, record) for k in node.keywords}
         if isinstance(callee, FuncInfo):
             if callee.name == "norm_vector":
